@@ -39,7 +39,37 @@ def _gset(n):
     return {(norm(t), b) for t, b in guards(n)}
 
 
+def _protecting_helpers(m):
+    """{name: (fn, fd_src, yielded name)} for @contextmanager functions of the shape
+    save; try: ... yield [x] ... finally: tcsetattr(fd, when, SAVED)."""
+    out = {}
+    for rel, q, fn in m.functions():
+        if not any((dotted(d) or "").split(".")[-1] == "contextmanager" for d in fn.decorator_list):
+            continue
+        for y in body_walk(fn):
+            if not isinstance(y, ast.Yield):
+                continue
+            for t, part in try_context(y):
+                if part != "body":
+                    continue
+                rs = [c for st in t.finalbody for c in walk_local(st) if isinstance(c, ast.Call) and (call_name(c) or "").split(".")[-1] == "tcsetattr"]
+                if rs and rs[0].args:
+                    out[fn.name] = (fn, norm(rs[0].args[0]), norm(y.value) if y.value is not None else None)
+    return out
+
+
+def _helper_guard(c, helpers, fd):
+    for w in __import__("tiv.astutil", fromlist=["with_context"]).with_context(c):
+        for it in w.items:
+            if isinstance(it.context_expr, ast.Call):
+                nm = (call_name(it.context_expr) or "").split(".")[-1]
+                if nm in helpers and helpers[nm][1] == fd:
+                    return nm
+    return None
+
+
 def run(ck, m):
+    helpers = _protecting_helpers(m)
     sites = []
     for rel, q, fn in m.functions():
         sets = _tc_calls(fn, "tcsetattr")
@@ -60,7 +90,8 @@ def run(ck, m):
         n_restore += len(restores)
 
         # R5: a function that modifies must restore
-        ck.ob("R5", fn, bool(restores) or not modifies,
+        unprotected = [c for c in modifies if not _helper_guard(c, helpers, norm(c.args[0]) if c.args else "?")]
+        ck.ob("R5", fn, bool(restores) or not unprotected,
               "function changes terminal attributes but has no restoring tcsetattr in a finally", stmt=f"def {fn.name}")
 
         # R2: pristine saved originals
@@ -101,6 +132,16 @@ def run(ck, m):
             st = enclosing_stmt(c)
             if isinstance(a, ast.Name):
                 binds = _bindings(fn, a.id)
+                via = [b for b in binds if isinstance(b, ast.With) and any(
+                    isinstance(i.context_expr, ast.Call) and (call_name(i.context_expr) or "").split(".")[-1] in helpers for i in b.items)]
+                if via and len(via) == len(binds):
+                    hname = next((call_name(i.context_expr) or "").split(".")[-1] for i in via[0].items if isinstance(i.context_expr, ast.Call))
+                    hfn, _fd, yielded = helpers[hname]
+                    hb = _bindings(hfn, yielded) if yielded else []
+                    okh = bool(hb) and all(isinstance(b, (ast.Assign, ast.AnnAssign)) and isinstance(b.value, ast.Call)
+                                           and (call_name(b.value) or "").split(".")[-1] == "tcgetattr" for b in hb)
+                    ck.ob("R2", st, okh, f"the list yielded by {hname}() must come from its own tcgetattr() call", stmt=f"modified-list {a.id} via {hname}")
+                    continue
                 ok = bool(binds) and all(
                     isinstance(b, (ast.Assign, ast.AnnAssign)) and isinstance(b.value, ast.Call)
                     and (call_name(b.value) or "").split(".")[-1] == "tcgetattr" for b in binds)
@@ -125,6 +166,9 @@ def run(ck, m):
                         break
                 if prot:
                     break
+            if prot is None and _helper_guard(c, helpers, fd):
+                ck.ob("R1", st, True, f"protected by context manager {_helper_guard(c, helpers, fd)}()", stmt=st)
+                continue
             ck.ob("R1", st, prot is not None,
                   f"tcsetattr({fd}, ..., modified attrs) is not inside the body of a try whose finally restores the saved attributes of {fd}: "
                   "an exception or interrupt after it leaves the terminal modified", stmt=st)
